@@ -95,9 +95,8 @@ func standaloneBlock(name, body string, opt bool, sw map[string]string) (string,
 	return blk, nil
 }
 
-func runC08(tier string) int {
-	r := harness.NewRun("C08", "exploration", tier, budget(tier, 50*time.Second, 12*time.Minute))
-	// entry options
+// c08Enumerate visits every mapscripts statement of the C08 family.
+func c08Enumerate(r *harness.Run, maxTab, maxEntries int, visit func(entries []c08Entry, scope string, opt bool)) (int, int) {
 	var tabOpts []c08TabEntry
 	tabOpts = append(tabOpts, c08TabEntry{false, 0, 0}, c08TabEntry{false, 0, 1})
 	for _, b := range []int{0, 1, 2, 4} {
@@ -107,10 +106,6 @@ func runC08(tier string) int {
 	opts = append(opts, c08Entry{kind: 0})
 	for b := 0; b < c08Bodies; b++ {
 		opts = append(opts, c08Entry{kind: 1, body: b})
-	}
-	maxTab := 2
-	if tier == "thorough" {
-		maxTab = 3
 	}
 	var tabs [][]c08TabEntry
 	var genTab func(cur []c08TabEntry, left int)
@@ -128,11 +123,6 @@ func runC08(tier string) int {
 		opts = append(opts, c08Entry{kind: 2, table: t})
 	}
 	nO := uint64(len(opts))
-	maxEntries := 3
-	if tier == "thorough" {
-		maxEntries = 3
-	}
-	sw := map[string]string{"PV": "SEL"}
 	completed := -1
 	for N := 0; N <= maxEntries && !r.Expired(); N++ {
 		pow := uint64(1)
@@ -150,17 +140,28 @@ func runC08(tier string) int {
 				entries[i] = opts[x%nO]
 				x /= nO
 			}
-			c08Eval(r, entries, scope, opt, sw)
+			visit(entries, scope, opt)
 		})
 		if done {
 			completed = N
 		}
 	}
+	return completed, len(opts)
+}
+
+func runC08(tier string) int {
+	r := harness.NewRun("C08", "exploration", tier, budget(tier, 50*time.Second, 12*time.Minute))
+	maxTab, maxEntries := 2, 3
+	if tier == "thorough" {
+		maxTab, maxEntries = 3, 3
+	}
+	sw := map[string]string{"PV": "SEL"}
+	completed, nOpts := c08Enumerate(r, maxTab, maxEntries, func(entries []c08Entry, scope string, opt bool) { c08Eval(r, entries, scope, opt, sw) })
 	if completed < maxEntries {
 		r.NotExhaustive(fmt.Sprintf("completed entry lists of length <= %d of planned <= %d", completed, maxEntries))
 	}
 	r.Set("max_entries_completed", completed)
-	r.Set("entry_options", len(opts))
+	r.Set("entry_options", nOpts)
 	r.Set("max_table_length", maxTab)
 	r.Assume("an inline body must be emitted exactly like 'script(local) <name> { body }' (differential; C01 decides the behaviour of script statements)",
 		"inline names are <map>_<TYPE> and <map>_<TYPE>_<index>; texts inside bodies are distinct per entry so that no label is shared across entries")
@@ -226,6 +227,23 @@ func c08Eval(r *harness.Run, entries []c08Entry, scope string, opt bool, sw map[
 	sb.WriteString("}\n")
 	src := sb.String()
 	o := comp.Opts{Optimize: opt, Switches: sw}
+	if c04Tap != nil {
+		fp := &fileProgram{Desc: "C08 mapscripts statement", Src: src, Opts: o, UserLabels: map[string]bool{}, DataLabels: map[string]bool{"M": true}, External: map[string]bool{}}
+		for _, in := range inlines {
+			fp.Owners = append(fp.Owners, in.name)
+		}
+		for _, tb := range tables {
+			fp.DataLabels[tb.name] = true
+		}
+		for i := range entries {
+			fp.External[fmt.Sprintf("L%d", i)] = true
+			for j := 0; j < 4; j++ {
+				fp.External[fmt.Sprintf("LT%d_%d", i, j)] = true
+			}
+		}
+		c04Tap(fp)
+		return
+	}
 	res := comp.Compile(src, o)
 	r.Add("evaluations", 1)
 	if hasTable && hasInline {
